@@ -14,7 +14,9 @@ META = {
              "rounds (composites) or >=3 rounds (aliases)."),
     "assumptions": ["random paths are compared only when both sides met the same sequence of choice points (same branching factors)"],
     "min_obs": {"all": {"irv_pairs": 150, "sntv_pairs": 150, "seqrcv_pairs": 150, "toptwo_checked": 150, "alaska_pairs": 100,
-                        "pairs_with_randomness": 50}},
+                        "pairs_with_randomness": 50, "irv_pairs_compared": 100, "sntv_pairs_compared": 100,
+                        "seqrcv_pairs_compared": 80, "toptwo_compared": 100, "alaska_pairs_compared": 60,
+                        "alaska_full_weight_transfer_pairs": 10}},
 }
 
 
@@ -55,6 +57,7 @@ def compare_alias(ctx, case, cfg_a, cfg_b, label, counter, tr_b=None):
         elif oa.ok:
             A, B = canon.outcome_c(oa.value), canon.outcome_c(ob.value)
             nontriv = len(A) >= 4
+            ctx.count(counter + "_compared")
             if A != B:
                 ctx.fail(f"{label}: rounds differ", c2, {"a": A, "b": B})
             elif hasattr(oa.value, "threshold") and oa.value.threshold != ob.value.threshold:
@@ -84,6 +87,7 @@ def check_toptwo(ctx, case):
             if len(st) != 3 or [s.round_number for s in st] != [0, 1, 2]:
                 ctx.fail("TopTwo: rounds are not numbered 0,1,2", c2, {"rounds": [s.round_number for s in st]})
             else:
+                ctx.count("toptwo_compared")
                 adv = [c for g in st[1].remaining for c in g]
                 drop = [c for g in st[1].eliminated for c in g]
                 if len(adv) != min(2, len(cands)) or sorted(adv + drop) != sorted(cands) or (drop and min(fp[c] for c in adv) < max(fp[c] for c in drop)):
@@ -119,7 +123,8 @@ def check_alaska(ctx, case):
     cfg = case["cfg"]
     script = case.get("script") or []
     for _ in range(case.get("max_runs", 3)):
-        oa, ra = run_scripted(cfg, prof, script)
+        fw = rules.full_weight_transfer if case.get("full_weight") else None
+        oa, ra = run_scripted(cfg, prof, script, transfer_override=fw)
         c2 = dict(case)
         c2["script"] = script
         # composition under the same script: Plurality(m_1) then STV(m_2) on the harness-reduced profile
@@ -134,8 +139,11 @@ def check_alaska(ctx, case):
                                            [canon.spec_ballot(r=[list(g) for g in r_], w=w) for r_, w, _ in red])
                 rprof = canon.build_profile(rspec)
                 os_ = rules.run({"rule": "STV", "m": cfg["m_2"], "quota": cfg.get("quota", "droop"), "sim": cfg.get("sim", True),
-                                 "transfer": cfg.get("transfer", "fractional"), "tiebreak": cfg.get("tiebreak")}, rprof)[0]
+                                 "transfer": cfg.get("transfer", "fractional"), "tiebreak": cfg.get("tiebreak")}, rprof,
+                                transfer_override=fw)[0]
         ctx.count("alaska_pairs")
+        if fw is not None and oa.ok:
+            ctx.count("alaska_full_weight_transfer_pairs")
         if ra.draws:
             ctx.count("pairs_with_randomness")
         nb = [n for _, n in rb.trace]
@@ -149,6 +157,7 @@ def check_alaska(ctx, case):
             ctx.fail("Alaska returned a result but its composition raises", c2, {"plurality": repr(op)[:150], "stv": repr(os_)[:150]})
         else:
             A = canon.outcome_c(oa.value)
+            ctx.count("alaska_pairs_compared")
             P1, S = op.value, os_.value
             exp = [canon.state_c(P1.election_states[0])]
             s1 = {"round": 1, "elected": [], "eliminated": canon.groups(P1.get_remaining()), "remaining": canon.groups(P1.get_elected()),
@@ -199,7 +208,10 @@ def run(ctx):
         c = cases.ranking_case(rnd, rule, maxn=maxn)
         if c["cfg"].get("transfer") == "random":
             c["cfg"]["transfer"] = "fractional"
-        ctx.guard("check", check_case, ctx, {"k": k, "cfg": c["cfg"], "profile": c["profile"], "max_runs": 3 if ctx.quick else 10})
+        cc = {"k": k, "cfg": c["cfg"], "profile": c["profile"], "max_runs": 3 if ctx.quick else 10}
+        if k == "alaska" and i % 4 == 1:
+            cc["full_weight"] = True  # the transfer option handed to Alaska must reach its STV stage
+        ctx.guard("check", check_case, ctx, cc)
         # look-alike requests right afterwards in the same process: same ballots with another candidate list (an extra / a
         # dropped candidate nobody voted for, another listing order), or the same rankings with the weights permuted
         if i % 2 == 0:
